@@ -21,9 +21,23 @@ import (
 
 func init() { Registry["C12"] = runC12; Registry["C12child"] = runC12Child }
 
+// the harness source directory and the model driver, relative to the running harness binary
+// (<verif>/harness/bin/harness), so that a copy of /verif checks the tree it was pointed at
+var (
+	c12HarnessDir = func() string {
+		if exe, err := os.Executable(); err == nil {
+			if d := filepath.Dir(filepath.Dir(exe)); fileExists(filepath.Join(d, "go.mod")) {
+				return d
+			}
+		}
+		return "/verif/harness"
+	}()
+	c12Driver = filepath.Join(c12HarnessDir, "..", "lean", ".lake", "build", "bin", "driver")
+)
+
+func fileExists(p string) bool { _, err := os.Stat(p); return err == nil }
+
 const (
-	c12HarnessDir = "/verif/harness"
-	c12Driver     = "/verif/lean/.lake/build/bin/driver"
 	c12VarA       = "A:five-formats-from-one-parsed-configuration"
 	c12VarB       = "B:independently-parsed-configurations"
 )
@@ -96,6 +110,9 @@ func c12Workload(c *Ctx, fam *report.Family, r *rng.R, nCfg, rounds int) error {
 	noted := map[string]bool{}
 	for k := 0; k < nCfg; k++ {
 		y := genIsoConfigYAML(r, tree, scripts)
+		if k == 0 {
+			y = isoDenseConfigYAML(tree, scripts)
+		}
 		isoCountFeatures(fam, y)
 		key := isoKey(y)
 		for round := 0; round < rounds; round++ {
